@@ -607,6 +607,8 @@ class Interp(ExprMixin):
         tkw = tuple((k, self.to_term(v)) for k, v in kwargs)
         if dotted.startswith("z3."):
             name = dotted[3:]
+            if name in Z3_CONSTS or name in ("Function", "Array"):
+                self.event("z3var", {"sort": name, "name": targs[0] if targs else NONE}, node)
             if name in Z3_CONSTS:
                 return ("z3var", Z3_CONSTS[name], targs[0] if targs else NONE)
             if name in Z3_FRESH:
